@@ -278,7 +278,46 @@ def c15(run):
     if not quick:
         ch_family(run, "rec_n3", 3, 2, "rec")
     ch_random(run, "rand_rec", "rec", 1500 if quick else 100000)
-    return run.finish(rule=CH_RULE, extra_assumptions=CH_ASSUME)
+    rec_concurrent(run, 60 if quick else 1500)
+    return run.finish(rule=CH_RULE + " Concurrent panics: rounds of 8-64 requests released by a barrier, most of them panicking at the "
+                      "same time through ONE Recovery instance (development mode: formatted stack with source lines); the process must "
+                      "survive and every request must get its own serial answer (ConcurrentTrace).", extra_assumptions=CH_ASSUME)
+
+
+def rec_concurrent(run, n):
+    """Panics of several requests AT THE SAME TIME through one Recovery instance: none escapes, nothing aborts the process,
+    every request is answered as if it were alone. (Data races as such are the business of C05; here only what C15 states.)"""
+    gen = os.path.join(run.work, "rec_conc.jsonl")
+    with open(gen, "w") as fo:
+        p = run.hrun(["conc", "gen", run.seed, n, "panic"], stdout=fo)
+    if p.returncode != 0:
+        raise Infra("conc gen failed: " + p.stderr[-2000:])
+    trace = os.path.join(run.work, "rec_conc.trace.ndjson")
+    run._cur = dict(hmodule="conc", tmodule="ConcurrentTrace", cfg_tmpl=TRACE_CFG % "", replay_args=[], env=None)
+    aborts = []
+    for attempt in range(3):
+        p = run.hrun(["conc", "replay", gen, trace], timeout=3000)
+        if p.returncode == 0:
+            break
+        if "fatal error:" not in p.stderr and "panic:" not in p.stderr:
+            raise Infra("conc harness failed rc=%s: %s" % (p.returncode, p.stderr[-2000:]))
+        aborts.append(p.stderr[:3000])
+        if len(aborts) == 2:
+            # the process died twice out of two or three attempts: reproduced
+            run.violation("rec_concurrent_panics", dict(kind="process-abort", gen_seed=run.seed, rounds=n, family="conc gen <seed> <n> panic"),
+                          dict(kind="the process serving the requests was aborted by the runtime while panics were being recovered", stderr=aborts))
+            run.cov["families"].append(dict(family="rec_concurrent_panics", cases=n, events=0, rejected_events=1, aborted=True))
+            return
+    if p.returncode != 0:
+        raise Infra("conc harness died once and survived once: no verdict\n" + aborts[0][:1500])
+    if aborts:
+        raise Infra("conc harness was aborted once and did not abort again: no verdict\n" + aborts[0][:1500])
+    run.nondeterministic = True
+    fails, ncases, nev = run.validate("ConcurrentTrace", TRACE_CFG % "", trace, label="rec_concurrent_panics")
+    run.account(trace, ncases, 1)
+    run.judge("rec_concurrent_panics", "conc", fails, trace, "ConcurrentTrace", TRACE_CFG % "", [])
+    run.cov["families"].append(dict(family="rec_concurrent_panics", cases=ncases, events=nev, rejected_events=len(fails)))
+    log("  family %-28s cases=%d events=%d rejected_events=%d" % ("rec_concurrent_panics", ncases, nev, len(fails)))
 
 
 # ============================================================== injection
